@@ -847,6 +847,8 @@ class EffectDomain(DefaultDomain):
                 return self.attrs[d]
             if len(chain) == 1 and not st.has(fr.local(chain[0])):
                 got = self._module_constant(chain[0], fr)
+                if got is None:
+                    got = self._imported_constant(chain[0], fr)
                 if got is not None:
                     return got
             # attribute of a local / attribute that holds a wrapped object
@@ -893,6 +895,35 @@ class EffectDomain(DefaultDomain):
             return bool(names & set(type_names))
         # an exception class this model invented (UserError ...): unrelated to every class named in the code
         return False
+
+    def _imported_constant(self, name, fr):
+        """`from .module import NAME` at the top of the frame's module, NAME being a constant / sentinel of that module of the repository."""
+        mod = getattr(fr.func, "_module", None)
+        tree = getattr(mod, "tree", None)
+        repo = getattr(self.classes, "repo", None)
+        if tree is None or repo is None:
+            return None
+        for s_ in tree.body:
+            if not isinstance(s_, ast.ImportFrom):
+                continue
+            for al in s_.names:
+                if (al.asname or al.name) != name:
+                    continue
+                base = mod.name.split(".")
+                is_pkg = getattr(mod, "path", "").endswith("__init__.py")
+                if s_.level:
+                    base = base[: len(base) - s_.level + (1 if is_pkg else 0)]
+                    target = ".".join(base + ([s_.module] if s_.module else []))
+                else:
+                    target = s_.module or ""
+                src = repo.modules.get(target)
+                if src is None or getattr(src, "tree", None) is None:
+                    return None
+                memo = _MODULE_CONSTANTS.setdefault(id(src.tree), (src.tree, {}))[1]
+                if al.name not in memo:
+                    memo[al.name] = EffectDomain._module_constant_uncached(al.name, src.tree)
+                return memo[al.name]
+        return None
 
     @staticmethod
     def _module_constant(name, fr):
